@@ -347,6 +347,22 @@ class SimKind:
                 for n in ("T", "P", "K", "Z", "H", "D"):
                     d[n] = np.array(getattr(sols[k], n))
             vs.append(d)
+        if behaviour:
+            # the steady databox built from the object: column k is variant k's steady path and parameters
+            try:
+                sdb = ir.Databox.steady(m, SIM_SPAN)
+                cols = {}
+                for n in ("x", self.second, "obs", "rho", "c"):
+                    a = sdb[n].get_data(SIM_SPAN) if isinstance(sdb.get(n), ir.Series) else None
+                    if a is None:
+                        v_ = sdb.get(n)
+                        a = np.array([v_ if isinstance(v_, (list, tuple)) else [v_] * nv], dtype=float) if v_ is not None else np.full((1, nv), np.nan)
+                    cols[n] = np.asarray(a, dtype=float)
+                for k, d in enumerate(vs):
+                    d["steady_db"] = np.concatenate([cols[n][:, min(k, cols[n].shape[1] - 1)].ravel() for n in sorted(cols)])
+            except Exception as e:
+                for d in vs:
+                    d["steady_db"] = "raises " + type(e).__name__
         if behaviour and all(d["solved"] for d in vs):
             eig = m.get_eigenvalues(unpack_singleton=False)
             stab = m.get_eigenvalues_stability(unpack_singleton=False)
